@@ -42,6 +42,10 @@ CLAIMED = {
    "Structural conditions decided on every run: Sort resolves to a stable sort; the outlier filter's fence is computed unconditionally from Percentile(0.25/0.75) of the raw values with the documented formulas (rational identity), a value is kept exactly when inside the fence, and min/max/mean come from the kept slice; the row construction's complete decision table (extracted by abstract interpretation from the SSA between the delta-test call and the row append) equals DESIGN Appendix A5, including the strict p<alpha gate, the delta formula, the improvement direction and the p/n note with retained sizes; zero means never enter the geomean; lists grow only through the append-if-absent helper; map ranges are order-independent and metricOf's first-match pick can match at most one entry.",
    "Does not decide the R8 percentile values or the tests' p-values (C11/C12), nor idempotence of Tables() across repeated calls (observed: RValues accumulates; outside the property's quantifier). Trusted: go/types, go/ssa, table A5.",
    "decision-table extraction + rational-function identity testing + site rules + map-range classification"),
+ "C19": ("DESIGN.md §4 C19",
+   "Structural conditions decided on every run: the query-term merger's SSA is evaluated under a rank oracle for all 360 (operator pair x weak ordering of the endpoint strings) cases and its result denotes exactly the intersection of the two value sets (exhaustive over a domain that is finite because the code only compares the strings); SQL generation is evaluated for every (key kind, operation, empty value) case and its placeholders match the arguments in number, column, comparison and order; separator characters equal the operation table's keys; the front end's quoting trigger covers the word splitter's special bytes and escapes in the right order; the printer's collect conditions, sorted emission, formats and model update; the flush path clears the coalescing state; the two key:value recognisers use the same predicates; in the legacy reader every write to the label map follows a copy made in the same call (path-sensitive in boolean flags) and never touches server-added labels.",
+   "Does not decide SQL semantics inside the database, the HTTP round trip, or upload listing order/limits. Trusted: go/types, go/ssa, the set semantics of DESIGN Appendix A7.",
+   "abstract interpretation of SSA with a rank oracle (exhaustive finite enumeration) + table agreement + path-sensitive must-precede dataflow"),
 }
 
 NOT_YET = "check not built yet in this round (planned in DESIGN.md); not claimed until its rules run clean on the unchanged tree"
